@@ -341,6 +341,10 @@ type c13IndexSpec struct {
 	fput   []int // transient Put failures before the i-th chunk call succeeds
 	fcdel  []int // indexes of chunk Delete calls failing once
 	flist  int   // > 0: the flist-th listing call (1-based) on the metadata store fails once
+	// straddle: (with tick) the bundle listing of the LAST repository is held until the first
+	// ticker-driven chunk has been read from the local key-value store, and that chunk's write is
+	// acknowledged late: the scan inserts keys while a chunk upload is in flight
+	straddle bool
 }
 
 func c13Ints(xs []int) string {
@@ -387,6 +391,28 @@ func (h *c13Hist) index(sp c13IndexSpec) bool {
 	if sp.tick {
 		blob.GetDelay = 300 * time.Microsecond
 		opts = append(opts, core.VerifPurgeUploaderInterval(time.Millisecond))
+	}
+	if sp.tick && sp.straddle {
+		chunkRead := make(chan struct{})
+		var once sync.Once
+		lastRepo := "bundles/" + c13RepoName(len(h.repos[0])-1) + "/"
+		meta.ListHook = func(prefix string) {
+			if strings.HasPrefix(prefix, lastRepo) {
+				select {
+				case <-chunkRead:
+				case <-time.After(400 * time.Millisecond):
+				}
+			}
+		}
+		meta.PutHook = func(key string) {
+			if strings.HasPrefix(key, model.ReverseIndexPrefix()) {
+				first := false
+				once.Do(func() { first = true; close(chunkRead) })
+				if first {
+					time.Sleep(120 * time.Millisecond)
+				}
+			}
+		}
 	}
 	var extra []context2.Stores
 	for _, cx := range sp.ctxs {
@@ -716,6 +742,39 @@ func c13Case(c *ctx, faultBudget *int, forceTick bool) error {
 
 // c13Directed builds a one-context, one-repo history with a fixed content pool: pool[0] has 3
 // leaves, pool[1] one leaf, pool[2] two leaves, pool[3] is empty, pool[4] one short leaf.
+// c13Straddle: two (or three) repositories; a ticker-driven chunk is being written while the scan of
+// the last repository inserts its keys (the schedule is forced through the metadata store).
+func c13Straddle(c *ctx, kind string, variant int) error {
+	nrepo := 2 + variant%2
+	c.w.Case("kind=%s nctx=1 nrepo=%d directed=ticker-straddles-scan", kind, nrepo)
+	defer c.w.End()
+	h, err := c13NewHist(c, kind, 1, nrepo)
+	if err != nil {
+		return err
+	}
+	defer h.close()
+	h.pool = [][]byte{
+		tr.GenBytes(201, 2*c13Leaf+17), tr.GenBytes(202, 40), tr.GenBytes(203, c13Leaf+5), tr.GenBytes(205, 3*c13Leaf), tr.GenBytes(204, 9),
+	}
+	c.w.Count("directed=ticker-straddles-scan")
+	// the first repositories hold enough keys for a ticker chunk; the last one's keys sort among them
+	if err := h.up(0, 0, []int{0, 1}); err != nil {
+		return err
+	}
+	if err := h.up(0, 0, []int{3}); err != nil {
+		return err
+	}
+	for r := 1; r < nrepo; r++ {
+		if err := h.up(0, r, []int{2, 4}); err != nil {
+			return err
+		}
+	}
+	h.index(c13IndexSpec{n: 2 + variant%3, ctxs: []int{0}, crash: -1, tick: true, straddle: true})
+	h.purge(c13PurgeSpec{page: 3, flist: -1})
+	h.downloads()
+	return nil
+}
+
 func c13Directed(c *ctx, kind, name string, f func(h *c13Hist) error) error {
 	c.w.Case("kind=%s nctx=1 nrepo=1 directed=%s", kind, name)
 	defer c.w.End()
@@ -885,6 +944,15 @@ func c13DirectedCases(c *ctx) error {
 			h.downloads()
 			return nil
 		}); err != nil {
+			return err
+		}
+	}
+	for v := 0; v < 4; v++ {
+		kind := "c13"
+		if c.sub == "c14" {
+			kind = "c14"
+		}
+		if err := c13Straddle(c, kind, v); err != nil {
 			return err
 		}
 	}
